@@ -603,6 +603,15 @@ fn ephemerals<C: BlsSignatureImpl + PartialEq + Copy + Send + Sync + 'static>(s:
         let r1 = p.ciphertext.c1 * (-p.challenge) + <C as Pairing>::PublicKey::generator() * p.blinder_proof;
         out.push(("encrypt_key_el_gamal_with_proof.r1".to_string(), Vec::from(&PublicKey::<C>(r1))));
         out.push(("split.share1".to_string(), Vec::from(&s.sk.split(2, 3).unwrap()[0])));
+        // two proofs made back to back: the nonce of the first must not come back as the blinder of the second
+        let g = <C as Pairing>::PublicKey::generator();
+        let p1 = s.pk.encrypt_key_el_gamal_with_proof(&s.sk).unwrap();
+        let p2 = s.pk.encrypt_key_el_gamal_with_proof(&s.sk).unwrap();
+        let p3 = s.pk.encrypt_key_el_gamal(&s.sk).unwrap();
+        out.push(("encrypt_key_el_gamal_with_proof.r1".to_string(), Vec::from(&PublicKey::<C>(p1.ciphertext.c1 * (-p1.challenge) + g * p1.blinder_proof))));
+        out.push(("encrypt_key_el_gamal_with_proof.c1".to_string(), Vec::from(&PublicKey::<C>(p2.ciphertext.c1))));
+        out.push(("encrypt_key_el_gamal_with_proof.r1".to_string(), Vec::from(&PublicKey::<C>(p2.ciphertext.c1 * (-p2.challenge) + g * p2.blinder_proof))));
+        out.push(("encrypt_key_el_gamal.c1".to_string(), Vec::from(&PublicKey::<C>(p3.c1))));
     }
     out
 }
